@@ -144,6 +144,38 @@ __CPROVER_assigns()
 __CPROVER_ensures(__CPROVER_return_value <= data_len)
 ;
 
+/* restart heuristics (real function enforced by unit c07_restart): at most 3 restarts per decompressor, counted in drec->restart;
+ * never touches the cursors; switches between the gzip and the raw-deflate personality only */
+#define C07_RESTART_POST(drec, data_len, consumed_back) ( \
+    (__CPROVER_return_value == 0 || __CPROVER_return_value == 1) && \
+    (__CPROVER_return_value == 1 ==> (O((drec)->restart) < 3 && (drec)->restart == O((drec)->restart) + 1 && *(consumed_back) <= (data_len))) && \
+    (__CPROVER_return_value == 0 ==> ((drec)->restart == O((drec)->restart) && *(consumed_back) == O(*(consumed_back)) && (drec)->zlib_initialized == O((drec)->zlib_initialized))) && \
+    ((drec)->zlib_initialized == O((drec)->zlib_initialized) || (O((drec)->zlib_initialized) == HTP_COMPRESSION_DEFLATE && (drec)->zlib_initialized == HTP_COMPRESSION_GZIP) || \
+     (O((drec)->zlib_initialized) == HTP_COMPRESSION_GZIP && (drec)->zlib_initialized == HTP_COMPRESSION_DEFLATE)) && \
+    (drec)->stream.next_in == O((drec)->stream.next_in) && (drec)->stream.avail_in == O((drec)->stream.avail_in) && \
+    (drec)->stream.next_out == O((drec)->stream.next_out) && (drec)->stream.avail_out == O((drec)->stream.avail_out))
+#define C07_RESTART_ASSIGNS(drec, consumed_back) (drec)->restart, (drec)->zlib_initialized, *(consumed_back), (drec)->stream.msg, (drec)->stream.state, (drec)->stream.zalloc, \
+    (drec)->stream.zfree, (drec)->stream.opaque, (drec)->stream.total_in, (drec)->stream.total_out, (drec)->stream.adler, (drec)->stream.data_type
+static int contract_htp_gzip_decompressor_restart(htp_decompressor_gzip_t *drec, const unsigned char *data, size_t data_len, size_t *consumed_back)
+__CPROVER_requires(__CPROVER_rw_ok(drec, sizeof(*drec)) && __CPROVER_rw_ok(consumed_back, sizeof(*consumed_back)) && data_len <= C07_INCAP && __CPROVER_r_ok(data, data_len))
+__CPROVER_assigns(C07_RESTART_ASSIGNS(drec, consumed_back))
+__CPROVER_ensures(C07_RESTART_POST(drec, data_len, consumed_back))
+;
+static int contract_real_htp_gzip_decompressor_restart(htp_decompressor_gzip_t *drec, const unsigned char *data, size_t data_len, size_t *consumed_back)
+__CPROVER_requires(__CPROVER_is_fresh(drec, sizeof(*drec)) && __CPROVER_is_fresh(consumed_back, sizeof(*consumed_back)) && data_len <= C07_INCAP && __CPROVER_is_fresh(data, data_len))
+__CPROVER_assigns(C07_RESTART_ASSIGNS(drec, consumed_back))
+__CPROVER_ensures(C07_RESTART_POST(drec, data_len, consumed_back))
+;
+/* the one memcpy of the function (LZMA header bytes): call-site contract.  Asserted: source readable, destination inside the
+ * 13-byte header array (an intra-object bound that the generic pointer checks do not see).  CBMC's own memcpy model with a symbolic
+ * length from a cursor that was havocked by the loop contract blows the formula up to 12 M variables. */
+void *contract_c07_memcpy(void *dst, const void *src, size_t n)
+__CPROVER_requires(__CPROVER_r_ok(src, n) && n <= LZMA_PROPS_SIZE + 8)
+__CPROVER_requires((unsigned char *) dst >= g_c07_hdr && (unsigned char *) dst + n <= g_c07_hdr + (LZMA_PROPS_SIZE + 8))
+__CPROVER_assigns(__CPROVER_object_upto(g_c07_hdr, LZMA_PROPS_SIZE + 8))
+__CPROVER_ensures(__CPROVER_return_value == dst)
+;
+
 /* ---- the decompressor object between calls ------------------------------------------------------------------------------ */
 #define C07_DREC_FIELDS(z) (C07_OUT_OK(z) && C07_ZI_OK(z) && (z)->header_len <= C07_HDR_MAX)
 #define C07_DEAD(z) ((z)->zlib_initialized == 0 && (z)->super.passthrough == 0)
@@ -167,6 +199,7 @@ __CPROVER_requires(C07_EXTRA_PRE)
 /* single / innermost layer; the terminal callback is the sink stub */
 __CPROVER_requires(drec1->next == NULL && drec1->callback == c07_sink)
 /* ghost snapshot the sink's call-site obligations refer to */
+__CPROVER_requires(__CPROVER_pointer_equals(g_c07_hdr, GZ(drec1)->header))
 __CPROVER_requires(g_c07_buf == GZ(drec1)->buffer && g_c07_in == d->data && g_c07_inlen == d->len && g_c07_tx == (const void *) d->tx && g_c07_last == d->is_last)
 __CPROVER_requires(g_c07_cb == 0 && g_c07_cb_failed == 0 && g_c07_dead == (C07_DEAD_CLAIMED(GZ(drec1), d) ? 1 : 0))
 __CPROVER_assigns(g_c07_cb, g_c07_cb_failed, g_c07_cb_rc, g_c07_cb_ptr, g_c07_cb_len, g_c07_budget,
